@@ -1,6 +1,9 @@
 /- C01 line-protocol driver: `lake env lean --run Verif/C01/Driver.lean` -/
 import Verif.Common.Proto
 import Verif.C01.Model
+import Verif.C01.Indexed
+import Verif.C01.Lexer
+import Verif.C01.LexSpec
 open Lean Verif.Proto Verif.Codec Verif.C01
 
 namespace Verif.C01.Driver
@@ -110,6 +113,40 @@ partial def jXml : Xml → Json
                 ("x", match text with | some (c :: r) => cps (c :: r) | _ => Json.null),
                 ("c", Json.arr (cs.map jXml).toArray)]
 
+def kiName : Ix.KI → String
+  | .lnk => "LNK" | .dq => "DQSTRING" | .langle => "LANGLE" | .rangle => "RANGLE" | .lbrace => "LBRACE"
+  | .rbrace => "RBRACE" | .lparen => "LPAREN" | .rparen => "RPAREN" | .comma => "COMMA" | .colon => "COLON"
+  | .symbol => "SYMBOL"
+
+def jToksI (ts : List Ix.TI) : Json := jList (fun t => Json.arr #[Json.str (kiName t.kind), cps t.text]) ts
+
+def eiName : Ix.EI → String
+  | .syntax => "MRSSyntaxError" | .eof => "StopIteration" | .semi => "SemIError" | .key => "KeyError"
+  | .value => "ValueError" | .assertion => "AssertionError" | .type_ => "TypeError"
+
+def ofStrLists (j : Json) : Except String (Dict (List Str)) := do
+  (← j.getArr?).toList.mapM (fun p => do
+    match (← p.getArr?).toList with
+    | [k, v] => pure (← ofCps k, ← (← v.getArr?).toList.mapM ofCps)
+    | _ => throw "bad pair")
+
+def ofSemI (j : Json) : Except String Ix.SemI := do
+  let preds ← (← getArr j "preds").mapM (fun p => do
+    match (← p.getArr?).toList with
+    | [k, syns] => do
+      let ss ← (← syns.getArr?).toList.mapM (fun syn => do
+        (← syn.getArr?).toList.mapM (fun r => do
+          match (← r.getArr?).toList with
+          | [n, v, o] => pure ({ name := ← ofCps n, value := ← ofCps v, optional := ← o.getBool? } : Ix.SynRole)
+          | _ => throw "bad role"))
+      pure (← ofCps k, ss)
+    | _ => throw "bad pred")
+  let vprops ← (← getArr j "vprops").mapM (fun p => do
+    match (← p.getArr?).toList with
+    | [k, v] => pure (← ofCps k, ← ofPairs v)
+    | _ => throw "bad vprops")
+  pure { preds, vprops, sub := ← ofStrLists (← j.getObjVal? "sub"), psub := ← ofStrLists (← j.getObjVal? "psub") }
+
 def getOpts (j : Json) : Except String Opts := do
   pure { properties := ← getBool j "props", lnk := ← getBool j "lnk" }
 
@@ -122,9 +159,9 @@ def handle (j : Json) : Except String Json := do
     if !simpleEncodable o m then pure (jErr "ValueError") else
     let ts := toks o m
     match parse ts with
-    | .error e => pure (Json.mkObj [("toks", jToks ts), ("dec", jErr (eName e))])
+    | .error e => pure (Json.mkObj [("toks", jToks ts), ("text", cps (Lex.render ts)), ("dec", jErr (eName e))])
     | .ok (d, rest) =>
-      pure (Json.mkObj [("toks", jToks ts), ("dec", jMRS d), ("rest", jNat rest.length),
+      pure (Json.mkObj [("toks", jToks ts), ("text", cps (Lex.render ts)), ("dec", jMRS d), ("rest", jNat rest.length),
                         ("retoks", if simpleEncodable o d then jToks (toks o d) else jErr "ValueError")])
   | "parse" => do
     let ts ← (← getArr j "toks").mapM ofTok
@@ -153,6 +190,25 @@ def handle (j : Json) : Except String Json := do
     | none => pure (Json.mkObj [("xml", jXml x), ("dec", jErr "Exception")])
     | some r => pure (Json.mkObj [("xml", jXml x), ("dec", jMRS r),
                                    ("rexml", if mrxEncodable r then jXml (toXml o r) else jErr "ValueError")])
+  | "indexed" => do
+    let m ← ofMRS (← j.getObjVal? "m")
+    let o ← getOpts j
+    let semi ← ofSemI (← j.getObjVal? "semi")
+    match Ix.toksIx semi o m with
+    | .error e => pure (jErr (eiName e))
+    | .ok ts =>
+      match Ix.parseIx semi ts with
+      | .error e => pure (Json.mkObj [("toks", jToksI ts), ("dec", jErr (eiName e))])
+      | .ok (d, rest) =>
+        pure (Json.mkObj [("toks", jToksI ts), ("dec", jMRS d), ("rest", jNat rest.length),
+                          ("retoks", match Ix.toksIx semi o d with
+                                     | .ok ts2 => jToksI ts2
+                                     | .error e => jErr (eiName e))])
+  | "lex" => do
+    let s ← getCps j "s"
+    match Lex.lex s with
+    | some ts => pure (jOk (jToks ts))
+    | none => pure (jErr "MRSSyntaxError")
   | "lnk" => do
     let s ← getCps j "s"
     match Lnk.parse s with
